@@ -21,9 +21,9 @@ EXTENDS Integers, Sequences, FiniteSets, TLC, Json
 (*   IN1  = struct{dig.In;  A *T1}         pIN1  = *IN1                                   *)
 (*   OUT1 = struct{dig.Out; A *T1}         pOUT1 = *OUT1                                  *)
 (*   EPI  = struct{*dig.In; A *T1}         EPO   = struct{*dig.Out; A *T1}                *)
-(*   INOUT = struct{dig.In; dig.Out; A *T1}                                               *)
-Slices   == {"sT0", "sI0", "NS"}
-ElemOf(t) == CASE t = "sT0" -> "T0" [] t = "sI0" -> "I0" [] t = "NS" -> "T0" [] OTHER -> t
+(*   INOUT = struct{dig.In; dig.Out; A *T1}      ssT0 = [][]*T0                            *)
+Slices   == {"sT0", "sI0", "NS", "ssT0"}
+ElemOf(t) == CASE t = "sT0" -> "T0" [] t = "sI0" -> "I0" [] t = "NS" -> "T0" [] t = "ssT0" -> "sT0" [] OTHER -> t
 ErrorLike(t) == t = "err"
 Implements(t, i) == (i = "I0" /\ t \in {"T0", "T1", "T7", "NS"})
 
@@ -47,7 +47,8 @@ Bad == [ok |-> FALSE, flat |-> <<>>]
 Good(fl) == [ok |-> TRUE, flat |-> fl]
 
 PEntry(t, name, grp, opt, soft) == [ty |-> t, name |-> name, grp |-> grp, opt |-> opt, soft |-> soft]
-REntry(t, name, grp) == [ty |-> t, name |-> name, grp |-> grp]
+REntry(t, name, grp) == [ty |-> t, name |-> name, grp |-> grp, fl |-> FALSE]
+FEntry(t, grp) == [ty |-> t, name |-> "", grp |-> grp, fl |-> TRUE]   \* a flattened group result
 
 -----------------------------------------------------------------------------
 (* Parameters: newParam / newParamObject / newParamObjectField / newParamGroupedSlice *)
@@ -124,7 +125,7 @@ ResultOfType(t, name, group, as) ==
            ELSE IF g.soft THEN Bad
            ELSE IF g.flatten /\ t \notin Slices THEN Bad
            ELSE IF g.flatten /\ al # <<>> THEN Bad            \* flatten cannot be combined with As
-           ELSE IF al = <<>> THEN Good(<<REntry(IF g.flatten THEN ElemOf(t) ELSE t, "", g.name)>>)
+           ELSE IF al = <<>> THEN Good(<<IF g.flatten THEN FEntry(ElemOf(t), g.name) ELSE REntry(t, "", g.name)>>)
            ELSE Good([j \in 1..Len(al) |-> REntry(al[j], "", g.name)])
   ELSE LET al == SelectSeq(AsList(as), LAMBDA i : i # t) IN
        IF \E j \in DOMAIN al : ~Implements(t, al[j]) THEN Bad
@@ -141,7 +142,7 @@ ResultField(f, name, group, as) ==
      ELSE IF g.soft THEN Bad
      ELSE IF f.name # "" THEN Bad
      ELSE IF BoolOK(f.opt) /\ BoolTrue(f.opt) THEN Bad
-     ELSE Good(<<REntry(IF g.flatten THEN ElemOf(f.ty) ELSE f.ty, "", g.name)>>)
+     ELSE Good(<<IF g.flatten THEN FEntry(ElemOf(f.ty), g.name) ELSE REntry(f.ty, "", g.name)>>)
   ELSE ResultOfType(f.ty, IF f.name # "" THEN f.name ELSE name, group, as)
 
 ResultItem(it, name, group, as) ==
@@ -180,13 +181,14 @@ ProvideVerdict(s, o) ==
            ELSE IF r.flat = <<>> THEN "invalid"
            ELSE "ok"
 
-\* Decorate: no options; a grouped result must be a slice (the whole group)
+\* Decorate: no options; a grouped result must be a slice (the whole group) and cannot be
+\* flattened (a flattened [][]T would otherwise pass as the slice []T)
 DecorateVerdict(s) ==
   IF s.nf # "" THEN "invalid"
   ELSE LET p == ParamList(s.ps)
            r == ResultList(s.rs, "", "", "")
        IN  IF ~p.ok \/ ~r.ok THEN "invalid"
-           ELSE IF \E j \in DOMAIN r.flat : r.flat[j].grp # "" /\ r.flat[j].ty \notin Slices THEN "invalid"
+           ELSE IF \E j \in DOMAIN r.flat : r.flat[j].grp # "" /\ (r.flat[j].fl \/ r.flat[j].ty \notin Slices) THEN "invalid"
            ELSE "ok"
 
 \* Invoke validates the parameters only; what the function returns is ignored
@@ -205,7 +207,7 @@ NoOpts == [name |-> "", group |-> "", as |-> ""]
 Fld(x, t, n, op, g) == [x |-> x, ty |-> t, name |-> n, opt |-> op, grp |-> g]
 
 FieldTypesP == {"T0", "sT0", "IN1", "OUT1", "pIN1", "err"}
-FieldTypesR == {"T0", "sT0", "OUT1", "IN1", "pOUT1", "err", "NS"}
+FieldTypesR == {"T0", "sT0", "OUT1", "IN1", "pOUT1", "err", "NS", "ssT0"}
 NamesT  == {"", "n"}
 OptT    == {"", "true", "false", "yes"}
 GroupT  == {"", "g", "g,flatten", "g,soft", "g,bogus", ",flatten", "g,flatten,soft"}
